@@ -1,9 +1,9 @@
 #!/bin/bash
 # try_mutant.sh <patch.diff> <tier> <ID>...   run checks against a scratch worktree of /repo HEAD with
-# the patch applied (VERIF_REPO), leaving /repo untouched; evidence/replays go to a scratch VERIF_DIR copy.
+# (or of $VERIF_BASE, e.g. a branch with repairs not yet in /repo) with the patch applied (VERIF_REPO), leaving /repo untouched; evidence/replays go to a scratch VERIF_DIR copy.
 P="$1"; TIER="$2"; shift 2
 WT=$(mktemp -d /tmp/try-XXXX); rmdir $WT
-git -C /repo worktree add -q --detach $WT HEAD || exit 3
+git -C /repo worktree add -q --detach $WT ${VERIF_BASE:-HEAD} || exit 3
 trap 'git -C /repo worktree remove --force $WT' EXIT
 ( cd $WT && (git apply -3 "$P" 2>/dev/null || git apply "$P") && git reset -q ) || { echo "patch does not apply"; exit 4; }
 for id in "$@"; do
